@@ -22,6 +22,7 @@ import (
 	sdk "github.com/cosmos/cosmos-sdk/types"
 	bankkeeper "github.com/cosmos/cosmos-sdk/x/bank/keeper"
 	"github.com/cosmos/ibc-go/v8/modules/apps/transfer"
+	transfertypes "github.com/cosmos/ibc-go/v8/modules/apps/transfer/types"
 	channeltypes "github.com/cosmos/ibc-go/v8/modules/core/04-channel/types"
 	porttypes "github.com/cosmos/ibc-go/v8/modules/core/05-port/types"
 
@@ -227,7 +228,7 @@ func (s *Sim) runShadows(p *Pkt) *shadowResult {
 			k := int64(p.Seq%7) + 1
 			donor := s.Env.Noble[1].Addr
 			for i, d := range []string{in.Native, DenomStake, DenomOther, DenomUSDC} {
-				if d == "" {
+				if d == "" || sdk.ValidateDenom(d) != nil {
 					continue
 				}
 				amt := sdkmath.NewInt(k * int64(13+i*1000))
@@ -397,6 +398,16 @@ func (s *Sim) runShadows(p *Pkt) *shadowResult {
 		}, false, s.recvCB(full, pkt, rel))
 		s.Stats.Count("shadow_executions")
 		if n > 0 {
+			// the same transfer without its passthrough payload, limit raised: the payload is opaque, so within the
+			// limit its mere size must not change the outcome
+			q := *in.Payload
+			q.Passthrough, q.PTNull = []byte{}, false
+			alt := pkt
+			alt.Data = transfertypes.NewFungibleTokenPacketData(in.D.Denom, in.D.Amount, in.D.Sender, in.D.Receiver, q.Canonical()).GetBytes()
+			res.V["limitup-nopassthrough"] = s.runVariant("limitup-nopassthrough", func(ctx sdk.Context) error {
+				return s.adminOnBranch(ctx, &adaptertypes.MsgUpdateParams{Signer: auth, Params: adaptertypes.Params{MaxPassthroughPayloadSize: 4294967295}})
+			}, false, s.recvCB(full, alt, rel))
+			s.Stats.Count("shadow_executions")
 			res.V["limitminus"] = s.runVariant("limitminus", func(ctx sdk.Context) error {
 				if err := s.adminOnBranch(ctx, &adaptertypes.MsgUpdateParams{Signer: auth, Params: adaptertypes.Params{MaxPassthroughPayloadSize: n + 7}}); err != nil {
 					return err
@@ -503,39 +514,9 @@ func bridgeEvents(evs []string) []string {
 	return out
 }
 
-// checkShadow compares the variants (called when the real delivery is observed).
-func (s *Sim) checkShadow(m *txMeta, p *Pkt, in *PktInfo, mo *MsgObs, ack AckInfo, sh *shadowResult) {
-	base := sh.V["base"]
-	if base == nil {
-		return
-	}
-	model := m.ModelAtShadow // the model as it was when the shadows ran (pre-block state)
-	if model == nil {
-		model = s.Model
-	}
-	for _, name := range sortedKeys(sh.V) {
-		v := sh.V[name]
-		if v.SetupErr != "" {
-			// the set-up applies, on a branch of the committed state, an authority message that the model says is
-			// valid right now (pause what is not paused, unpause what is paused, raise the limit): a refusal means the
-			// chain's answer does not follow from its committed state (e.g. state kept outside the store)
-			prop := map[string]string{"actionflip": "C09", "unpaused": "C08", "extrapause": "C08", "limitup": "C18", "pausehistory-unpause-smaller": "C08", "pausehistory-unpause-larger": "C08", "limitexact": "C18", "limitminus": "C18", "actionhistory-paused": "C09", "actionhistory-unpaused": "C09", "actionhistory-other": "C09"}[v.Name]
-			if prop == "" {
-				panic(harnessErr("shadow %s set-up failed for packet op=%d: %s", v.Name, p.Origin, v.SetupErr))
-			}
-			s.violate(prop, "message-semantics", "valid-authority-message-refused-on-branch variant="+v.Name, fmt.Sprintf("before packet op=%d: on a branch of the committed state a message the model holds valid was refused: %.300s", p.Origin, v.SetupErr))
-			delete(sh.V, name)
-			continue
-		}
-		if v.Panic != "" {
-			s.violate("C14", "U1-no-panic", "shadow: "+oneLine(v.Panic), fmt.Sprintf("packet op=%d panicked in shadow variant %s: %.300s", p.Origin, v.Name, v.Panic))
-		}
-	}
-	orbS, dustS := s.Env.Orbiter.String(), s.Env.Dust.String()
-	// harness self-check: the real delivery of a packet that was alone and first in its block agrees with its shadow
-	if m.soleInBlock && !m.GasCut && base.Panic == "" && string(base.Ack) != string(ack.Bytes) && len(s.Viol) == 0 {
-		panic(harnessErr("real delivery and base shadow disagree for packet op=%d:\n real:   %s\n shadow: %s", p.Origin, ack.Bytes, base.Ack))
-	}
+// c07Differential: not addressed to the orbiter => exactly the wrapped application (acknowledgement or panic,
+// events, state). Also called for deliveries whose transaction was aborted by a panic.
+func (s *Sim) c07Differential(p *Pkt, in *PktInfo, sh *shadowResult, base *variantResult) {
 	// ---- C07: not addressed to the orbiter => exactly the wrapped application
 	if nm := sh.V["nomw"]; nm != nil && !in.ToOrbiter {
 		s.Stats.Count("rule:C07.differential")
@@ -544,7 +525,7 @@ func (s *Sim) checkShadow(m *txMeta, p *Pkt, in *PktInfo, mo *MsgObs, ack AckInf
 			cls = "non-ics20"
 		}
 		if string(nm.Ack) != string(base.Ack) || nm.Panic != base.Panic {
-			s.violate("C07", "same-as-without-middleware", "ack-differs class="+cls, fmt.Sprintf("packet op=%d receiver %q: with middleware %.200s / without %.200s", p.Origin, in.D.Receiver, base.Ack, nm.Ack))
+			s.violate("C07", "same-as-without-middleware", "ack-differs class="+cls, fmt.Sprintf("packet op=%d receiver %q: with middleware %.200s%s / without %.200s%s", p.Origin, in.D.Receiver, base.Ack, panicHead(base.Panic), nm.Ack, panicHead(nm.Panic)))
 		}
 		if !sameStrs(nm.Events, base.Events) {
 			s.violate("C07", "same-as-without-middleware", "events-differ class="+cls, fmt.Sprintf("packet op=%d: %s", p.Origin, firstDiff(base.Events, nm.Events)))
@@ -568,7 +549,7 @@ func (s *Sim) checkShadow(m *txMeta, p *Pkt, in *PktInfo, mo *MsgObs, ack AckInf
 			}
 			s.Stats.Count("rule:C07.differential-middleware-level")
 			if string(mw.Ack) != string(bare.Ack) || mw.Panic != bare.Panic {
-				s.violate("C07", "same-as-wrapped-application-alone", "ack-differs class="+cls, fmt.Sprintf("packet op=%d data=%.200q: orbiter(transfer) %.200s / transfer alone %.200s", p.Origin, string(p.Data), mw.Ack, bare.Ack))
+				s.violate("C07", "same-as-wrapped-application-alone", "ack-differs class="+cls, fmt.Sprintf("packet op=%d data=%.200q: orbiter(transfer) %.200s%s / transfer alone %.200s%s", p.Origin, string(p.Data), mw.Ack, panicHead(mw.Panic), bare.Ack, panicHead(bare.Panic)))
 			}
 			if !sameStrs(mw.Events, bare.Events) {
 				s.violate("C07", "same-as-wrapped-application-alone", "events-differ class="+cls, fmt.Sprintf("packet op=%d: %s", p.Origin, firstDiff(mw.Events, bare.Events)))
@@ -580,6 +561,51 @@ func (s *Sim) checkShadow(m *txMeta, p *Pkt, in *PktInfo, mo *MsgObs, ack AckInf
 			}
 		}
 	}
+}
+
+func panicHead(x string) string {
+	if len(x) > 120 {
+		x = x[:120]
+	}
+	return oneLine(x)
+}
+
+// checkShadow compares the variants (called when the real delivery is observed).
+func (s *Sim) checkShadow(m *txMeta, p *Pkt, in *PktInfo, mo *MsgObs, ack AckInfo, sh *shadowResult) {
+	base := sh.V["base"]
+	if base == nil {
+		return
+	}
+	model := m.ModelAtShadow // the model as it was when the shadows ran (pre-block state)
+	if model == nil {
+		model = s.Model
+	}
+	for _, name := range sortedKeys(sh.V) {
+		v := sh.V[name]
+		if v.SetupErr != "" {
+			// the set-up applies, on a branch of the committed state, an authority message that the model says is
+			// valid right now (pause what is not paused, unpause what is paused, raise the limit): a refusal means the
+			// chain's answer does not follow from its committed state (e.g. state kept outside the store)
+			prop := map[string]string{"actionflip": "C09", "unpaused": "C08", "extrapause": "C08", "limitup": "C18", "pausehistory-unpause-smaller": "C08", "pausehistory-unpause-larger": "C08", "limitexact": "C18", "limitminus": "C18", "limitup-nopassthrough": "C18", "actionhistory-paused": "C09", "actionhistory-unpaused": "C09", "actionhistory-other": "C09"}[v.Name]
+			if prop == "" {
+				panic(harnessErr("shadow %s set-up failed for packet op=%d: %s", v.Name, p.Origin, v.SetupErr))
+			}
+			s.violate(prop, "message-semantics", "valid-authority-message-refused-on-branch variant="+v.Name, fmt.Sprintf("before packet op=%d: on a branch of the committed state a message the model holds valid was refused: %.300s", p.Origin, v.SetupErr))
+			delete(sh.V, name)
+			continue
+		}
+		if v.Panic != "" && in.ToOrbiter {
+			// (a packet that is not for the orbiter and makes the wrapped application panic is C07's business:
+			// with and without the middleware it must panic alike)
+			s.violate("C14", "U1-no-panic", "shadow: "+oneLine(v.Panic), fmt.Sprintf("packet op=%d panicked in shadow variant %s: %.300s", p.Origin, v.Name, v.Panic))
+		}
+	}
+	orbS, dustS := s.Env.Orbiter.String(), s.Env.Dust.String()
+	// harness self-check: the real delivery of a packet that was alone and first in its block agrees with its shadow
+	if m.soleInBlock && !m.GasCut && base.Panic == "" && string(base.Ack) != string(ack.Bytes) && len(s.Viol) == 0 {
+		panic(harnessErr("real delivery and base shadow disagree for packet op=%d:\n real:   %s\n shadow: %s", p.Origin, ack.Bytes, base.Ack))
+	}
+	s.c07Differential(p, in, sh, base)
 	if !in.ToOrbiter {
 		return
 	}
@@ -727,6 +753,12 @@ func (s *Sim) checkShadow(m *txMeta, p *Pkt, in *PktInfo, mo *MsgObs, ack AckInf
 			s.Stats.Count("rule:C18.branch-boundary")
 			if ex.Success != v.Success {
 				s.violate("C18", "within-limit-never-refused-for-size", "limit-equal-to-length-behaves-differently-from-unlimited", fmt.Sprintf("packet op=%d: passthrough %d bytes: with the limit set to exactly that %.120s, with the limit raised %.120s", p.Origin, len(pl.Passthrough), ex.Ack, v.Ack))
+			}
+		}
+		if np := sh.V["limitup-nopassthrough"]; np != nil {
+			s.Stats.Count("rule:C18.size-is-immaterial-within-limit")
+			if np.Success && !v.Success {
+				s.violate("C18", "within-limit-never-refused-for-size", "refused-with-the-limit-raised-but-accepted-without-the-payload", fmt.Sprintf("packet op=%d: passthrough %d bytes: refused even with the limit at its maximum (%.160s) while the same transfer without a passthrough payload is accepted", p.Origin, len(pl.Passthrough), v.Ack))
 			}
 		}
 		if mi := sh.V["limitminus"]; mi != nil {
